@@ -240,7 +240,7 @@ def shrink_case(case, fails):
 
 
 def run(ctx):
-    n_valid, n_mal = (10000, 2500) if ctx.tier == "quick" else (800000, 200000)
+    n_valid, n_mal = (10000, 2500) if ctx.tier == "quick" else (300000, 75000)
     ctx.assumptions += [
         "model: 1-3 operations (async import call, stream read, stream write, future read = the runtime's WaitableOp instances) x two harness-owned wasip3 tasks (C ABI v1 or v2, MockTask mirrors SharedTaskState::{waitable_register,waitable_unregister} and deliver_waitable_event); the theorem covers universes of at most 2 operations, any trace length",
         "validity of an action list = WaitOp.valid_trace: Rust API contract (no poll/cancel after completion, nothing after drop), CM host protocol (completion codes, one completion per outstanding operation, cancel reports an undelivered completion), and the documented v1 assumption (an operation is touched by another task than the one that last polled it only if both are v2)",
@@ -309,6 +309,11 @@ def run(ctx):
         outs = rtmock.run(exe_t, abi)
         n_abi = len(abi)
         badabi = [(a, o) for a, o in zip(abi, outs) if " ## mock: " not in o or o.split(" ## mock: ")[0][len("real: "):] != o.split(" ## mock: ")[1]]
+        trapped = [(a, o) for a, o in zip(abi, outs) if "TRAP" in o.split(" ## mock: ")[0] or o.startswith(("PANIC", "ABORT"))]
+        if trapped:
+            a, o = trapped[0]
+            ctx.violation("c18:task-abi:%s" % a.replace(" ", ","), "the real task (SharedTaskState / deliver_waitable_event) trapped in the host or panicked on the register/unregister/deliver sequence %r: %s" % (a, o[:500]),
+                          {"engine": "taskabi", "case": a})
         if badabi:
             ctx.tie_broken("tie-mocktask", "MockTask and the real SharedTaskState differ on %d/%d task-ABI sequences; first: %r -> %s" % (len(badabi), len(abi), badabi[0][0], badabi[0][1][:600]))
     dist = {"total": len(cases), "corpus": len(corpus), "valid": nvalid, "malformed_or_invalid": len(cases) - nvalid,
@@ -338,6 +343,13 @@ def replay(ctx, path):
     obj = json.load(open(path))
     ok1, exe_r, log1, ok2, exe_m, log2 = build()
     case = obj["replay"]["case"]
+    if obj["replay"].get("engine") == "taskabi":
+        ok3, exe_t, _ = rtmock.build("taskabi")
+        o = rtmock.run(exe_t, [case])[0]
+        print("sequence:", case); print(o.replace(" ## ", "\n"))
+        bad = "TRAP" in o or o.startswith(("PANIC", "ABORT")) or " ## mock: " not in o or o.split(" ## mock: ")[0][len("real: "):] != o.split(" ## mock: ")[1]
+        print("verdict:", "real task misbehaves / differs from MockTask" if bad else "real task == MockTask, no trap")
+        return 1 if bad else 0
     real_m, mod = run_both(exe_r, exe_m, [case])
     why = holds(case, real_m[0]) if mod[0][1] else None
     r = strip_markers(real_m[0])
